@@ -92,17 +92,17 @@ PipeData(legs, qconjOut, sort, bunch) ==
     LET sh == SubShape(legs)
         N == Size(sh)
         nl == Len(legs)
-        qi == [l \in 1..nl |-> [i \in 1..IndLen(legs[l]) |-> QIndex(legs[l], i - 1)]]
-        wi == [l \in 1..nl |-> [i \in 1..IndLen(legs[l]) |-> (i - 1) - BlockStart(legs[l], qi[l][i])]]
-        tup == [n \in 1..N |-> Unflat(n - 1, sh)]
-        fused == [n \in 1..N |-> MakeValid([k \in 1..QN |->
-                     qconjOut * ISumSeq([l \in 1..nl |-> legs[l].qconj * legs[l].charges[qi[l][tup[n][l] + 1]][k]])])]
-        keys == [n \in 1..N |-> (IF sort THEN ChargeKey(fused[n]) ELSE <<>>)
+        qi == ([l \in 1..nl |-> [i \in 1..IndLen(legs[l]) |-> QIndex(legs[l], i - 1)]]) \o <<>>
+        wi == ([l \in 1..nl |-> [i \in 1..IndLen(legs[l]) |-> (i - 1) - BlockStart(legs[l], qi[l][i])]]) \o <<>>
+        tup == ([n \in 1..N |-> Unflat(n - 1, sh)]) \o <<>>
+        fused == ([n \in 1..N |-> MakeValid([k \in 1..QN |->
+                     qconjOut * ISumSeq([l \in 1..nl |-> legs[l].qconj * legs[l].charges[qi[l][tup[n][l] + 1]][k]])])]) \o <<>>
+        keys == ([n \in 1..N |-> (IF sort THEN ChargeKey(fused[n]) ELSE <<>>)
                                 \o [l \in 1..nl |-> qi[l][tup[n][l] + 1]]
-                                \o [l \in 1..nl |-> wi[l][tup[n][l] + 1]]]
+                                \o [l \in 1..nl |-> wi[l][tup[n][l] + 1]]]) \o <<>>
         ord == SortSeq([n \in 1..N |-> n], LAMBDA a, b : SeqLess(keys[a], keys[b]))
-        pos == [n \in 1..N |-> CHOOSE o \in 1..N : ord[o] = n]
-        qt == [o \in 1..N |-> [l \in 1..nl |-> qi[l][tup[ord[o]][l] + 1]]]
+        pos == ([n \in 1..N |-> CHOOSE o \in 1..N : ord[o] = n]) \o <<>>
+        qt == ([o \in 1..N |-> [l \in 1..nl |-> qi[l][tup[ord[o]][l] + 1]]]) \o <<>>
         \* one block per qindex tuple (consecutive in outgoing order), then optionally bunched
         ones == [o \in 1..N |-> 1]
         RECURSIVE Runs(_)
@@ -115,8 +115,8 @@ PipeData(legs, qconjOut, sort, bunch) ==
         sizes == [k \in 1..Len(bl) |-> bl[k][1]]
         charges == [k \in 1..Len(bl) |-> bl[k][2]]
         bb == IF bunch THEN BunchBlocks(sizes, charges) ELSE <<sizes, charges>>
-    IN [inv |-> [o \in 1..N |-> tup[ord[o]]],
-        map |-> [n \in 1..N |-> pos[n] - 1],
+    IN [inv |-> [o \in 1..N |-> tup[ord[o]]] \o <<>>,
+        map |-> [n \in 1..N |-> pos[n] - 1] \o <<>>,
         leg |-> [sizes |-> bb[1], charges |-> bb[2], qconj |-> qconjOut, pipe |-> legs, psort |-> sort]]
 PipeMap(legs, qconjOut, sort) == PipeData(legs, qconjOut, sort, TRUE).map
 PipeInv(legs, qconjOut, sort) == PipeData(legs, qconjOut, sort, TRUE).inv
@@ -385,6 +385,10 @@ Selected(spec, idx) == \A a \in 1..Len(spec) :
       [] spec[a].k = "int" -> idx[a] = spec[a].i
       [] OTHER -> \E j \in 1..Len(spec[a].sel) : spec[a].sel[j] = idx[a]
 OpScaleItems(t, spec, z) == [t EXCEPT !.val = Mk(t.val.shape, LAMBDA idx : IF Selected(spec, idx) THEN GMul(z, At(t.val, idx)) ELSE At(t.val, idx))]
+
+\* self[inds] = other[inds]  for another tensor with the same legs and total charge: the selected entries are
+\* replaced by those of `other` (also where `other` has no stored block: those entries become zero)
+OpSetItemsFrom(t, o, spec) == [t EXCEPT !.val = Mk(t.val.shape, LAMBDA idx : IF Selected(spec, idx) THEN At(o.val, idx) ELSE At(t.val, idx))]
 
 \* extend(axis, extra): append zero-filled blocks of the leg `extra` to axis x
 OpExtend(t, x, extra) ==
